@@ -44,7 +44,7 @@ PROPERTIES["C12"] = {
                                  "sample indices: distinct symbolic int64 in [0, 10^6], given in arbitrary order (ordered=0) or increasing order",
                                  "contract: std::discrete_distribution<T>::operator()(rng, param) returns an arbitrary index of POSITIVE probability (the standard's distribution; libstdc++ returns index 0 of zero weight only if generate_canonical yields exactly 0.0, i.e. two consecutive minimal draws, which minstd_rand cannot produce) - so the zero-weight clause is verified for libnano's code AROUND the distribution: construction from the weights, alignment of weights with samples (gboost sampler: weights per dataset sample, looked up through the sample list), mapping of the drawn position to the sample index"],
     "bounds": {"n": "3..6 samples with symbolic indices and arbitrary draws; size clause of the random splitter: n in {7,20,25,40} (quick) / every n in 2..40 (thorough) with EVERY train percentage 10..90 symbolic", "folds": "2..3", "count": "<= n"},
-    "outside": ["'equal seeds give equal splits' (the random engine is replaced by the contract; determinism of minstd_rand is not examined)",
+    "outside": ["'equal seeds give equal splits' is decided relative to the engine state (mode=determ: the real std::minstd_rand steps and every draw is an arbitrary but fixed value per (engine state, range)); the arithmetic by which libstdc++ maps engine outputs to a range is replaced by that contract; seeds other than the configured one (42) and n > 4 are outside the quick tier",
                 "the arithmetic inside std::discrete_distribution (replaced by its contract); ball sampling is decided over the reals for arbitrary draws (unit C12_ball): floating-point rounding of the normalisation and the all-zero direction (probability zero) are outside",
                 "weighted modes: the zero / positive weight pattern and (gboost sampler) the subset are enumerated by forking, the positive weights themselves are fixed numbers", "n > 6"],
     "units": [
@@ -54,11 +54,12 @@ PROPERTIES["C12"] = {
          "budget": {"quick": {"deadline_s": 60, "max_paths": 4000, "query_s": 15}, "thorough": {"deadline_s": 600, "max_paths": 50000, "query_s": 60}},
          "encoded": ["nano::sample_from_ball(x0, radius, rng) with std::normal_distribution<double>::operator() and std::generate_canonical<double, 53, rng_t> replaced by arbitrary values of their range (link-time), std::pow ackermannised with its range facts, Eigen lpNorm<2>"]},
         {"engine": "sbv", "harness": "C12_split", "sources": ["C12_split.cpp"],
-         "quick": ["mode=kfold;n=4;folds=2", "mode=kfold;n=5;folds=2", "mode=kfold;n=3;folds=3", "mode=kfold;n=4;folds=3;ordered=1", "mode=random;n=4;folds=2;perc=80",
+         "quick": ["mode=determ;n=4;folds=2;which=0;twice=0", "mode=determ;n=4;folds=2;which=0;twice=1", "mode=determ;n=4;folds=2;which=1;twice=2", "mode=determ;n=3;folds=2;which=0;twice=3", "mode=determ;n=4;folds=2;which=0;twice=4", "mode=kfold;n=4;folds=2", "mode=kfold;n=5;folds=2", "mode=kfold;n=3;folds=3", "mode=kfold;n=4;folds=3;ordered=1", "mode=random;n=4;folds=2;perc=80",
                    "mode=random;n=3;folds=2;perc=10", "mode=without;n=4;count=2", "mode=without;n=4;count=4", "mode=without;n=4;count=0", "mode=with;n=3;count=3", "mode=with;n=4;count=2",
                    "mode=randsize;n=7;folds=2", "mode=randsize;n=20;folds=2", "mode=randsize;n=25;folds=2", "mode=randsize;n=40;folds=2",
                    "mode=weighted;n=4;count=3", "mode=gsampler;n=3;N=5;type=1", "mode=gsampler;n=3;N=5;type=2", "mode=gsampler;n=3;N=5;type=3", "mode=gsampler;n=3;N=5;type=4"],
-         "thorough": ["mode=kfold;n=%d;folds=%d;ordered=%d" % (n, f, o) for (n, f) in ((3, 2), (3, 3), (4, 2), (4, 3), (5, 2), (5, 3), (6, 2), (6, 3)) for o in (0, 1)] +
+         "thorough": ["mode=determ;n=%d;folds=%d;which=%d;twice=%d" % t for t in ((4, 2, 0, 0), (4, 2, 0, 1), (4, 2, 0, 2), (3, 2, 0, 3), (4, 2, 0, 3), (4, 2, 1, 0), (4, 2, 1, 1), (4, 2, 1, 2), (3, 2, 1, 3), (4, 2, 0, 4), (3, 2, 1, 4), (5, 2, 0, 0), (4, 3, 0, 0))] +
+                     ["mode=kfold;n=%d;folds=%d;ordered=%d" % (n, f, o) for (n, f) in ((3, 2), (3, 3), (4, 2), (4, 3), (5, 2), (5, 3), (6, 2), (6, 3)) for o in (0, 1)] +
                      ["mode=random;n=%d;folds=%d;perc=%d" % (n, f, p) for (n, f, p) in ((4, 2, 80), (5, 2, 50), (3, 2, 10), (5, 2, 90), (6, 2, 75), (5, 3, 10))] +
                      ["mode=without;n=%d;count=%d" % (n, c) for (n, c) in ((4, 2), (5, 5), (4, 0), (6, 3), (5, 1))] + ["mode=with;n=%d;count=%d" % (n, c) for (n, c) in ((3, 3), (4, 2), (2, 5), (5, 3))] +
                      ["mode=randsize;n=%d;folds=2" % n for n in range(2, 41)] +
